@@ -29,6 +29,9 @@ RECURSIVE TreeAt(_, _)
 TreeAt(ns, i) ==
   [t |-> ns[i].t, v |-> ns[i].v, a |-> ns[i].a, id |-> ns[i].id, n |-> ns[i].n,
    l |-> ns[i].l, k |-> ns[i].k, el |-> ns[i].el, ek |-> ns[i].ek,
+   mf |-> IF "mf" \in DOMAIN ns[i] THEN ns[i].mf ELSE FALSE, mx |-> IF "mx" \in DOMAIN ns[i] THEN ns[i].mx ELSE FALSE,
+   mm |-> IF "mm" \in DOMAIN ns[i] THEN ns[i].mm ELSE FALSE,
+   ml |-> IF "ml" \in DOMAIN ns[i] THEN ns[i].ml ELSE 0, mk |-> IF "mk" \in DOMAIN ns[i] THEN ns[i].mk ELSE 0,
    c |-> [j \in 1..Len(ns[i].kids) |-> TreeAt(ns, ns[i].kids[j])]]
 TreeOf(x) == IF "nodes" \in DOMAIN x THEN TreeAt(x.nodes, x.root) ELSE x
 
